@@ -38,9 +38,11 @@ pub struct Ledger {
     pub stamps: Mutex<Vec<(u32, u64, u64)>>,
     pub err_callbacks: Mutex<Vec<u32>>,
     pub close_calls: AtomicU32,
-    /// (item, milliseconds between its first poll and its drop) for items dropped before completion -- on the runtime's own clock
-    /// (virtual under the paused runtime, real otherwise): a timeout may cancel an item only after it was in flight that long
-    pub cancelled_after_ms: Mutex<Vec<(u32, u64)>>,
+    /// (item, microseconds between the construction of the item future -- which precedes the executor wrapping it into its timeout -- and its drop)
+    /// for items dropped before completion, on the runtime's own clock (virtual under the paused runtime, real otherwise): a timeout may cancel an
+    /// item only after that long. (Measured from the first poll instead, a loaded machine can put a millisecond between the creation of the timeout
+    /// and the first poll and make a correct executor look early.)
+    pub cancelled_after_us: Mutex<Vec<(u32, u64)>>,
 }
 impl Ledger {
     pub fn new(items: usize) -> Arc<Ledger> { let l = Ledger::default(); *l.state.lock().unwrap() = vec![0; items]; *l.stamps.lock().unwrap() = (0..items as u32).map(|i| (i, 0, 0)).collect(); Arc::new(l) }
@@ -58,13 +60,15 @@ impl Guard {
         let st = ledger.stamp(); ledger.stamps.lock().unwrap()[item as usize].1 = st;
         Guard { ledger: ledger.clone(), item, completed: false, t0: tokio::time::Instant::now() }
     }
+    /// `born`: when the item future was constructed (before the executor got hold of it)
+    pub fn start_born(ledger: &Arc<Ledger>, item: u32, born: tokio::time::Instant) -> Guard { let mut g = Guard::start(ledger, item); g.t0 = born; g }
     pub fn complete(mut self) { self.completed = true; }
 }
 impl Drop for Guard {
     fn drop(&mut self) {
         self.ledger.in_flight.fetch_sub(1, SeqCst);
         self.ledger.state.lock().unwrap()[self.item as usize] = if self.completed { 2 } else { 3 };
-        if !self.completed { self.ledger.cancelled_after_ms.lock().unwrap().push((self.item, self.t0.elapsed().as_millis() as u64)) }
+        if !self.completed { self.ledger.cancelled_after_us.lock().unwrap().push((self.item, self.t0.elapsed().as_micros() as u64)) }
         let st = self.ledger.stamp(); self.ledger.stamps.lock().unwrap()[self.item as usize].2 = st;
     }
 }
